@@ -188,6 +188,23 @@ def gen_data(cfg):
                     B["pts"]["lat"][cand] = A["pts"]["lat"][idx]
                     B["pts"]["lon"][cand] = A["pts"]["lon"][idx]
                 break
+    if cfg.get("end_on_file_start") and len(sets["A"]["files"]) >= 2:
+        A, B = sets["A"], sets["B"]
+        fi = 1 + cfg["end_on_file_start"] % (len(A["files"]) - 1)
+        t0 = A["files"][fi][0]
+        idx = np.nonzero(A["file_of"] == fi)[0][0]
+        A["pts"]["time"][idx] = M.T0 + t0 * SEC
+        tq = t0 - min(cfg["mi_s"] - 1, 30)
+        for fj, (b0, b1) in enumerate(B["files"]):
+            if b0 <= tq <= b1:
+                cand = np.nonzero(B["file_of"] == fj)[0][0]
+                B["pts"]["time"][cand] = M.T0 + tq * SEC
+                B["pts"]["lat"][cand] = A["pts"]["lat"][idx]
+                B["pts"]["lon"][cand] = A["pts"]["lon"][idx]
+                cfg["edge_partner"] = True
+                break
+        cfg["end"] = int(t0)
+        cfg["start"] = int(min(cfg["start"], max(0, t0 - 7200)))
     return sets
 
 
@@ -569,6 +586,14 @@ def gen_cfg(rng, force=None):
     else:
         a = rng.randrange(0, 7200)
         cfg["start"], cfg["end"] = a, a + rng.choice([900, 3600, 20000])
+    if force == "edge":
+        # the period ends exactly where a primary file starts, that file's first sample sits on this
+        # second and has a partner shortly before (gen_data places both)
+        cfg["A"].update({"files": max(4, cfg["A"]["files"]), "gaps": rng.choice([[0], [0, 1], [300]])})
+        cfg["B"].update({"files": max(3, cfg["B"]["files"]), "gaps": [0], "first": 0})
+        cfg["end_on_file_start"] = rng.randrange(1, 100)
+        cfg["collision_probe"] = False
+        cfg.pop("grid", None)
     if force == "midnight" or (force is None and rng.random() < 0.15):
         # files that sit in the directory of their start day and reach into the next day; the period
         # starts on that next day
@@ -703,9 +728,9 @@ def run_shard(spec, rec):
     rng = rng_for(spec["seed"], "c05", spec["shard"])
     for i in range(spec["n"]):
         # every fourth shard starts with one configuration of a class that is rare in the random mix
-        force = {1: "grid", 2: "midnight", 3: "big"}.get(spec["shard"] % 4) if i == 0 else None
+        force = {0: "edge", 1: "grid", 2: "midnight", 3: "big"}.get(spec["shard"] % 4) if i == 0 else None
         cfg = gen_cfg(rng, force)
-        for k in ("grid", "midnight", "big"):
+        for k in ("grid", "midnight", "big", "end_on_file_start"):
             if cfg.get(k):
                 rec.count("configs." + k)
         if i < 1:
